@@ -16,7 +16,7 @@ import ast
 
 COQTY = {'text': '(list Z)', 'Z': 'Z', 'B': 'bool', 'regex': 'regex', 'patch': 'patch', 'Lpatch': '(list patch)',
          'Ltext': '(list (list Z))', 'match': 'rmatch', 'Lmatch': '(list rmatch)', 'node': 'node',
-         'Lnode': '(list node)', 'Omatch': '(option rmatch)', 'pfun': '(Z -> bool)'}
+         'Lnode': '(list node)', 'Omatch': '(option rmatch)', 'pfun': '(Z -> bool)', 'LZ': '(list Z)'}
 ELEM = {'Lpatch': 'patch', 'Ltext': 'text', 'Lmatch': 'match', 'Lnode': 'node'}
 KEYWORDS = {'end', 'at', 'in', 'fun', 'match', 'with', 'let', 'if', 'then', 'else', 'return', 'text', 'patch', 'node',
             'type', 'as', 'from', 'sub', 'len', 'start'}
@@ -146,6 +146,11 @@ class Tr(object):
       if out is None:
         fail(n, 'list of %r' % (tb,))
       return '(map (fun %s => %s) %s)' % (cname(v), body, it), out
+    if isinstance(n, ast.Subscript) and isinstance(n.slice, ast.Constant) and n.slice.value in (0, 1):
+      c, t = self.expr(n.value, env)
+      if isinstance(t, tuple) and t[0] == 'tuple' and len(t) == 3:
+        return '(%s %s)' % ('fst' if n.slice.value == 0 else 'snd', c), t[1 + n.slice.value]
+      fail(n, 'subscript')
     if isinstance(n, ast.Attribute):
       return self.attribute(n, env)
     if isinstance(n, ast.Call):
@@ -189,6 +194,9 @@ class Tr(object):
     return '(' + ' ++ '.join(pieces) + ')', 'text'
 
   def attribute(self, n, env):
+    c, t = self.expr(n.value, env)
+    if t == 'node' and n.attr == 'id':
+      return '(name_id %s)' % c, 'text'
     fail(n, 'attribute')
 
   def call(self, n, env):
